@@ -161,13 +161,39 @@ def gen_pattern(rng, L, P, cap, kind):
     return ops
 
 
+REF_NOSEARCH = False   # set while a group is judged whose reference is the buffered single call (no_search = 1)
+
+
 def ref_ops(L, cap):
+    """the reference pattern: as few int16 calls as possible, searched as data arrives (or, when REF_NOSEARCH,
+    buffered with no_search = 1 and searched by decoder_end_utt)"""
     out, left = [], L
+    ns = 1 if REF_NOSEARCH else 0
     while left > 0:
         n = min(left, cap)
-        out.append(f"p i {n} 0")
+        out.append(f"p i {n} {ns}")
         left -= n
-    return out or ["p i 0 0"]
+    return out or [f"p i 0 {ns}"]
+
+
+def end_edge_lengths(rng, N, P, tier):
+    """clip lengths whose cepstral frame count M sits next to a size feat_buf can have (128 * 2^k): at the end of
+    the utterance the flush of `win` more feature frames then lands exactly at / next to the end of the buffer.
+    M = k*128 + d, d in -3..+6; the two values of d that put the last write position on the boundary with
+    immediate search (M - win - 1 in {alloc - 3, alloc - 2}) are always included."""
+    fs, sh, win, a0 = P["fsize"], P["fshift"], P["win"], P["nfeat"]
+    out = []
+    for k in (1, 2, 4):
+        alloc = a0 * k
+        crit = [alloc + win - 2, alloc + win - 1]
+        extra = [alloc + d for d in range(-3, 7) if alloc + d not in crit]
+        rng.shuffle(extra)
+        picks = crit + extra[:(1 if tier == "quick" else 4)]
+        for M in picks:
+            L = fs + (M - 2) * sh + rng.below(sh)      # M - 1 frames from fe_process, one from fe_end
+            if M >= 2 and L <= N and M <= 300:
+                out.append((M, alloc, L))
+    return out
 
 
 def gen_clips(rng, N, P, tier):
@@ -185,6 +211,9 @@ def gen_clips(rng, N, P, tier):
     if tier != "quick":
         clips.append((rng.below(N // 4), fs + 128 * sh + rng.below(sh)))
         clips.append((rng.below(N // 2), rng.range(16000, 30000)))
+    # frame counts next to the sizes feat_buf can have (reused decoder: the size is whatever the history left)
+    for (M, alloc, l) in end_edge_lengths(rng, N, P, tier)[:(2 if tier == "quick" else 8)]:
+        clips.append((0 if l > N - 10 else rng.below(N - l), l))
     clips.append((0, min(N, maxlen)))
     return clips
 
@@ -402,6 +431,7 @@ def mk_run(off, ln, cmn, ops):
     return {"off": off, "len": ln, "cmn": cmn, "ops": list(ops), "fed": min(fed, ln)}
 
 
+STATE = {"tie_failures": 0, "oracle_failed": False}
 REF_LAST = False      # set while a group is judged whose reference pattern is decoded after the variants
 
 
@@ -552,7 +582,7 @@ def report_violation(c, binp, g, off, ln, cmn, ops, cap, why):
               "group": g["name"], "hmm": g["hmm"], "cfg": g["cfg"], "audio": g["audio"],
               "clip_offset_samples": off, "clip_length_samples": ln, "cmn": cmn,
               "reference_ops": ref_ops(ln, cap), "variant_ops": small, "why": why,
-              "reference_decoded_after_the_variant": REF_LAST,
+              "reference_decoded_after_the_variant": REF_LAST, "reference_buffered_no_search": REF_NOSEARCH,
               "implementation_violates_property": visible, "finding_class": key,
               "how_to_rerun": "python3 tools/check.py C07 --replay <this file>   (a warm-up utterance, the reference "
                               "pattern and the variant are decoded by harness/h_c07 in one fresh process; ops: "
@@ -571,7 +601,7 @@ def new_stats():
             "nosearch": Counter(), "queries": Counter(), "clip_frames": Counter(), "first_chunk_lt_window": 0,
             "one_sample_chunks": 0, "chunks_gt_ring": 0, "utterances": 0, "groups": Counter(),
             "reference_with_hypothesis": 0, "reference_without_hypothesis": 0, "patterns_differing_from_reference": 0,
-            "patterns_differing_in_the_visible_result": 0}
+            "patterns_differing_in_the_visible_result": 0, "end_edge_frames": Counter()}
 
 
 def bucket(n):
@@ -606,12 +636,13 @@ def probe(binp):
     return bool(m and m.group(1) == "1")
 
 
-def check_group(c, binp, g, cases, cap, stats, label, depth=0, ref_last=False):
+def check_group(c, binp, g, cases, cap, stats, label, depth=0, ref_last=False, ref_nosearch=False):
     """cases: list of (off, len, cmn, [(kind, ops), ...], cap).  Returns (ok, P).
     ref_last: decode the variants before the reference pattern (on a fresh decoder the variants then meet the
     initial buffer sizes, which the single-call reference would have grown)."""
-    global REF_LAST
+    global REF_LAST, REF_NOSEARCH
     REF_LAST = ref_last
+    REF_NOSEARCH = ref_nosearch
     w = WARMUP[0].split()
     runs = [mk_run(int(w[1]), int(w[2]), w[3], WARMUP[1:-2])]
     index = []               # (case idx, variant idx or -1 for the reference) per run after the warm-up
@@ -638,6 +669,8 @@ def check_group(c, binp, g, cases, cap, stats, label, depth=0, ref_last=False):
         kind, key = report_violation(c, binp, g, off, ln, cmn, ops, cap_c,
                                      "the library aborted / reported a sanitizer error under this call pattern")
         known = key is not None and any(k == key for k, _ in c.known_hits)
+        if not known:
+            STATE["oracle_failed"] = True
         if kind is None:
             c.oblige(f"harness ran every pattern to completion ({label})", False,
                      {"exit_code": rc, "stderr_tail": err[-1500:], "pattern": ops[:40],
@@ -657,7 +690,7 @@ def check_group(c, binp, g, cases, cap, stats, label, depth=0, ref_last=False):
                         continue
                 rest.append((o2, l2, m2, v2, cp2))
             if rest:
-                ok2, P = check_group(c, binp, g, rest, cap, stats, label, depth + 1, ref_last)
+                ok2, P = check_group(c, binp, g, rest, cap, stats, label, depth + 1, ref_last, ref_nosearch)
                 return (ok2 and known), P
         return known, P
     # ---- oracle: every record identical to the reference record of its clip
@@ -715,6 +748,9 @@ def check_group(c, binp, g, cases, cap, stats, label, depth=0, ref_last=False):
         branch_stats(P, r, stats)
         if problems and tie_ok:
             tie_ok = False
+            STATE["tie_failures"] += 1
+            if STATE["tie_failures"] > 2:
+                continue                 # already reported; keep looking for an input on which the oracle fails
             c.oblige(f"correspondence model = implementation ({label})", False,
                      {"group": g["name"], "clip": (r["off"], r["len"]), "ops": r["ops"][:60], "first_problems": problems[:3]})
             if ok and k > 0:
@@ -723,6 +759,8 @@ def check_group(c, binp, g, cases, cap, stats, label, depth=0, ref_last=False):
                 report_violation(c, binp, g, off, ln, cmn, r["ops"], cap_c,
                                  "model and implementation diverge on this pattern: " + problems[0][:300])
     stats["groups"][g["name"]] += len(runs) - 1
+    if not ok:
+        STATE["oracle_failed"] = True
     return ok and tie_ok, P
 
 
@@ -763,6 +801,7 @@ def check(c):
     cap = 32767 if d9 else 10 ** 9
     stats = new_stats()
     stats["d9_stale_assert_present"] = d9
+    STATE["tie_failures"], STATE["oracle_failed"] = 0, False
     allok = True
     # ---- corpus first
     ncorp = 0
@@ -782,9 +821,42 @@ def check(c):
     P0 = {"fsize": 410, "fshift": 160, "nmfc": 128}
     nvar = 0
     distinct = set()
+    # ---- end-of-utterance flush against the end of feat_buf: critical utterance lengths, immediate search in several
+    #      chunk sizes, each on a fresh decoder (feat_buf has its initial size, grown only by doubling), compared with the
+    #      buffered (no_search) single call; the same lengths are also in the clip list of the reused decoders above
+    nedge = 0
+    for g in (groups[:1] if c.tier == "quick" else groups):
+        if STATE["oracle_failed"]:
+            break
+        rc, err, P, _ = run_harness(binp, g, [])
+        if not P:
+            break
+        for (M, alloc, ln) in end_edge_lengths(c.rng, P["naudio"], P, c.tier):
+            if STATE["oracle_failed"]:
+                break
+            off = 0
+            cmn = c.rng.choice(CMNS)
+            variants = [("end-edge one call", [f"p i {min(ln, cap)} 0"] + ([f"p i {ln - cap} 0"] if ln > cap else []))]
+            for csz in ([1024] if c.tier == "quick" else [1024, 2048, 160, 4000]):
+                variants.append((f"end-edge {csz}-sample chunks",
+                                 [f"p {'f' if c.rng.chance(0.5) else 'i'} {min(csz, ln - i)} 0" for i in range(0, ln, csz)]))
+            ops = [re.sub(r"^(p \w \d+) 1$", r"\1 0", o) for o in gen_pattern(c.rng, ln, P, cap, "random")]
+            variants.append(("end-edge random immediate", ops))
+            if c.tier != "quick":
+                variants.append(("end-edge mixed", gen_pattern(c.rng, ln, P, cap, "mixed")))
+                variants.append(("end-edge queries", gen_pattern(c.rng, ln, P, cap, "queries")))
+            for kind, ops in variants:
+                note_pattern(stats, P, kind.split(" ")[0], ops, ln)
+                distinct.add(hash((g["name"], off, ln, cmn, tuple(ops), "edge")))
+                nvar += 1
+            stats["end_edge_frames"][f"{alloc}{M - alloc:+d}"] += 1
+            nedge += 1
+            ok, P = check_group(c, binp, g, [(off, ln, cmn, variants, cap)], cap, stats,
+                                f"end-of-utterance edge {g['name']} M={M}", ref_last=True, ref_nosearch=True)
+            allok = allok and ok
     for rnd in range(rounds):
         for g in groups:
-            if not allok:
+            if STATE["oracle_failed"]:
                 break
             # header probe for the parameters of this model
             rc, err, P, _ = run_harness(binp, g, [])
@@ -823,7 +895,7 @@ def check(c):
             ok, P = check_group(c, binp, g, cases, cap, stats, f"generated {g['name']} round {rnd}")
             allok = allok and ok
             for fi, case in enumerate(fresh):
-                if not allok:
+                if STATE["oracle_failed"]:
                     break
                 # a fresh decoder per long clip: feat_buf still has its initial size when the first variants run
                 ok, P = check_group(c, binp, g, [case], cap, stats, f"generated {g['name']} round {rnd} long clip {fi}",
@@ -848,6 +920,7 @@ def check(c):
                   "one_sample_chunks": stats["one_sample_chunks"], "chunks_larger_than_the_cepstrum_ring": stats["chunks_gt_ring"],
                   "model_branches_hit": dict(stats["branches"]), "model_branches_never_hit": unhit,
                   "per_group_utterances": dict(stats["groups"]), "corpus_cases": ncorp,
+                  "end_of_utterance_edge_clips_on_fresh_decoders (feat_buf size + offset of the frame count)": dict(stats["end_edge_frames"]),
                   "reference_records_with_a_hypothesis": stats["reference_with_hypothesis"],
                   "reference_records_without_a_hypothesis": stats["reference_without_hypothesis"],
                   "patterns_differing_from_reference": stats["patterns_differing_from_reference"],
@@ -863,6 +936,7 @@ def replay(c, path):
     cap = 32767 if probe(binp) else 10 ** 9
     stats = new_stats()
     cases = [(obj["clip_offset_samples"], obj["clip_length_samples"], obj["cmn"], [("replay", obj["variant_ops"])], cap)]
-    ok, P = check_group(c, binp, g, cases, cap, stats, "replay", ref_last=bool(obj.get("reference_decoded_after_the_variant")))
+    ok, P = check_group(c, binp, g, cases, cap, stats, "replay", ref_last=bool(obj.get("reference_decoded_after_the_variant")),
+                        ref_nosearch=bool(obj.get("reference_buffered_no_search")))
     c.oblige("replayed pattern gives the reference record and agrees with the model", ok)
     c.cov.update({"evaluations": 1, "distinct_nontrivial": 1})
